@@ -32,6 +32,8 @@ type fakeConn struct {
 func (f *fakeConn) Read(b []byte) (int, error)  { return 0, net.ErrClosed }
 func (f *fakeConn) Write(b []byte) (int, error) { return len(b), nil }
 func (f *fakeConn) Close() error {
+	// closing a socket is a system call: the goroutine can lose the CPU here
+	simrt.Yield("conn-close")
 	f.mu.Lock()
 	was := f.closed
 	f.closed = true
@@ -83,7 +85,11 @@ func runWSPool(x *X) {
 				op.kind = "closeheld"
 			case 4:
 				op.kind = "sleep"
-				switch c.Intn(6, "dt") {
+				switch c.Intn(8, "dt") {
+				case 6, 7:
+					// exactly one cleanup period: the holder's next operation and the pool's
+					// cleanup pass become runnable at the same virtual instant and interleave
+					op.d = 30 * time.Second
 				case 0:
 					op.d = idleTimeout / 2
 				case 1:
